@@ -265,6 +265,24 @@ pub fn rpc_envelope(method: &str, mat: &Material) -> (Value, String) {
 				"params": {"token": null, "id": null, "slate_id": format!("{}", mat.s3.id)}}),
 			"".into(),
 		),
+		"init_send_tx" => (
+			json!({"jsonrpc": "2.0", "method": "init_send_tx", "id": 1, "params": {"token": null, "args": {
+				"src_acct_name": null, "amount": "100000000", "minimum_confirmations": 1, "max_outputs": 500, "num_change_outputs": 1,
+				"selection_strategy_is_use_all": false, "target_slate_version": null, "ttl_blocks": 5,
+				"payment_proof_recipient_address": format!("{}", mat.addr_w2), "estimate_only": true, "late_lock": false, "send_args": null}}}),
+			"".into(),
+		),
+		"query_txs" => (
+			json!({"jsonrpc": "2.0", "method": "query_txs", "id": 1, "params": {"token": null, "refresh_from_node": false, "query": {
+				"min_id": 0, "limit": 5, "exclude_cancelled": false, "min_amount": "1", "min_creation_timestamp": "2019-01-15T16:01:26Z",
+				"sort_field": "Id", "sort_order": "Asc"}}}),
+			"".into(),
+		),
+		"create_slatepack_message" => (
+			json!({"jsonrpc": "2.0", "method": "create_slatepack_message", "id": 1,
+				"params": {"token": null, "slate": inner, "sender_index": 0, "recipients": [format!("{}", mat.addr_w2)]}}),
+			"/params/slate".into(),
+		),
 		_ => (json!({"jsonrpc": "2.0", "method": method, "id": 1, "params": []}), "".into()),
 	}
 }
@@ -400,6 +418,7 @@ pub fn build_valid(inst: &Inst, mat: &Material, rng: &mut Rng) -> Built {
 			let v = match (inst.chain.as_str(), &mat.s2_open) {
 				("rpcf_recv", _) => mat.s1.clone(),
 				("rpcf_fin", Some(s)) | ("rpco_fin", Some(s)) => s.clone(),
+				("rpco_cspm", _) => mat.s1.clone(),
 				_ => mat.build_slate(slate_name, &inst.slate),
 			};
 			Material::slate_json(&v).into_bytes()
